@@ -38,8 +38,9 @@ Section WithOracle.
   | Done                      (* returned normally *)
   | Raised (x : exn).
 
-  (* [setattr c instantiated a n v]: new attrs and outcome.  The model is NOT atomic by construction:
-     Field.__set__ stores first and runs __validate__ afterwards. *)
+  (* [setattr c instantiated a n v]: new attrs and outcome.  Field.__set__ stores first and runs
+     __validate__ afterwards; Structure.__setattr__ puts the previous entry back when the descriptor
+     chain raises, so a rejected assignment leaves the attributes as they were. *)
   Definition setattr (c : classdef) (instantiated : bool) (a : attrs) (n : pystr) (v : pyval)
     : attrs * outcome :=
     if c_immutable c && instantiated then (a, Raised ValueError)
@@ -59,7 +60,7 @@ Section WithOracle.
                 if fd_immutable fd && alist_has a n then (a, Raised ValueError)
                 else
                   let a' := alist_set a n nf in
-                  if instantiated && negb (hook_ok (c_hook c) a') then (a', Raised ValueError)
+                  if instantiated && negb (hook_ok (c_hook c) a') then (a, Raised ValueError)
                   else (a', Done)
             end
       end.
@@ -164,8 +165,12 @@ Section WithOracle.
     match op with
     | SetAttr n v => setattr c true a n v
     | DelItem n =>
-        if is_required c n then (a, Raised ValueError)
-        else if alist_has a n then (alist_del a n, Done) else (a, Raised KeyError)
+        (* refused on an immutable class / field and for a required name; otherwise the entry is removed,
+           __validate__ runs on the result and a rejection puts the entry back *)
+        if c_immutable c || field_immutable c n || is_required c n then (a, Raised ValueError)
+        else if alist_has a n then
+               if hook_ok (c_hook c) (alist_del a n) then (alist_del a n, Done) else (a, Raised ValueError)
+             else (a, Raised KeyError)
     | WrapMut n s base =>
         let frozen := c_immutable c || field_immutable c n in
         match s with
